@@ -28,7 +28,7 @@ struct Shared {
     spin_flagged: AtomicBool,
 }
 
-fn thread_cpu_ns(pt: libc::pthread_t) -> Option<u64> {
+pub fn thread_cpu_ns(pt: libc::pthread_t) -> Option<u64> {
     unsafe {
         let mut cid: libc::clockid_t = 0;
         if libc::pthread_getcpuclockid(pt, &mut cid) != 0 {
